@@ -7,21 +7,47 @@
                must yield exactly the observed layout (table numbers per level, in order);
      KOverlaps a direct probe of tFiles.getOverlaps on a live level (both variants, nil bounds included);
      KMemLevel a direct probe of version.pickMemdbLevel on the live version.
-   Tables travel as bounds only (number, size, first and last internal key): the modelled functions read nothing else. *)
+   Tables travel as bounds only (number, size, first and last internal key): the modelled functions read nothing else.
+   Builder cases (model Lsm/Builder.v):
+     KBuild    an observed table compaction (possibly after retried transient failures): input tables with entries, minSeq,
+               table size limit, grandparents (bounds + sizes), the levels below the output level (bounds), a size oracle
+               (table.Writer.BytesLen after n entries, per table start, computed by an independent writer), and the
+               installed output tables; the model builder without failures must produce exactly the observed tables
+               (same entries, same cuts);
+     KRetry    tableCompactionBuilder.run driven attempt by attempt under injected storage faults: after every failed
+               attempt the observed snapshot fields (builder and compaction) and the number of finished tables must
+               be those of the failure-free model run at position snapIter; the successful attempt must end with the
+               model's tables, dropCnt and kerrCnt. *)
 From GL Require Export Corr.LsmRun.
-From GL Require Import Base.Bytes Codec.IKey Corr.Cmps Gen.Consts Gen.Inst Lsm.Lsm Lsm.Compact Lsm.Pick.
+From GL Require Import Base.Bytes Codec.IKey Corr.Cmps Gen.Consts Gen.Inst Lsm.Lsm Lsm.Compact Lsm.Pick Lsm.Builder.
 From Coq Require Import String.
 
 Inductive kmeta := KM (num size : N) (lo hi : kentry).
 
+(* BytesLen of a fresh table writer after n entries, for the table starting with entry (uk, seq): steps (n, size) *)
+Inductive ksizes := KS (uk : string) (seq : N) (steps : list (N * N)).
+
+(* the builder after one call of run: failed?, snapIter, snapHasLastUkey, snapLastUkey, snapLastSeq, snapKerrCnt,
+   snapDropCnt, snapGPI, snapSeenKey, snapGPOverlappedBytes, snapTPtrs (below the output level), tables in the record,
+   kerrCnt, dropCnt *)
+Inductive kattempt :=
+  KA (failed : bool) (snapIter : N) (hasLast : bool) (lastU : string) (lastSeq snapKerr snapDrop : N)
+     (gpi : N) (seen : bool) (gpbytes : N) (tptrs : list N) (ntables kerr drop : N).
+
 Inductive c06case :=
 | KL (x : lsmcase)
+| KBuild (cid : N) (minSeq : N) (strict : bool) (tableSize maxgp : N) (ins : list ktable) (gp : list kmeta)
+         (deeper : list (list kmeta)) (sizes : list ksizes) (outs : list (list kentry))
+| KRetry (cid : N) (minSeq : N) (strict : bool) (tableSize maxgp : N) (ins : list ktable) (gp : list kmeta)
+         (deeper : list (list kmeta)) (sizes : list ksizes) (attempts : list kattempt) (outs : list (list kentry))
 | KPick (cid : N) (v : list (list kmeta)) (lvl : N) (seed : list N) (limit maxgp : N) (noTrivial moved : bool)
         (obs0 obs1 gp : list N)
 | KFinish (cid : N) (base : list (list kmeta)) (trivial : bool) (dels : list (N * N)) (adds : list (N * kmeta))
           (post : list (list N))
 | KOverlaps (cid : N) (tf : list kmeta) (umin umax : option string) (overlapped : bool) (obs : list N)
 | KMemLevel (cid : N) (v : list (list kmeta)) (umin umax : string) (gplimits : list N) (maxLevel : N) (obs : N).
+
+Definition to_mtable_full (t : ktable) : table := to_table t.
 
 Definition to_mtable (m : kmeta) : table :=
   match m with
@@ -54,8 +80,83 @@ Fixpoint layout_eqb (a b : list (list N)) : bool :=
 Definition select (tf : list table) (nums : list N) : list table :=
   List.concat (map (fun n => match find (fun t => t_num t =? n) tf with Some t => [t] | None => [] end) nums).
 
+(* ---- builder cases ---- *)
+Definition step_size (steps : list (N * N)) (n : N) : N :=
+  fold_left (fun acc st => if fst st <=? n then snd st else acc) steps 0.
+
+Definition tsize_of (sizes : list (bytes * N * list (N * N))) (l : list item) : N :=
+  match l with
+  | IGood e :: _ =>
+      match find (fun s => beq (fst (fst s)) (e_uk e) && (snd (fst s) =? e_seq e)) sizes with
+      | Some s => step_size (snd s) (N.of_nat (List.length l))
+      | None => 0
+      end
+  | _ => 0
+  end.
+
+Definition conv_sizes (sizes : list ksizes) : list (bytes * N * list (N * N)) :=
+  map (fun s => match s with KS u q st => (unhex u, q, st) end) sizes.
+
+Fixpoint tables_eqb (a : list (list item)) (b : list (list entry)) : bool :=
+  match a, b with
+  | [], [] => true
+  | x :: a', y :: b' => forallb is_good x && entries_eqb (good_entries x) y && tables_eqb a' b'
+  | _, _ => false
+  end.
+
+Definition nat_eqN (a : nat) (b : N) : bool := N.of_nat a =? b.
+Fixpoint ptrs_eqb (a : list nat) (b : list N) : bool :=
+  match a, b with
+  | [], [] => true
+  | x :: a', y :: b' => nat_eqN x y && ptrs_eqb a' b'
+  | _, _ => false
+  end.
+
+Definition next_fails_at (k : nat) : oracle :=
+  {| o_closed := false; o_next := Nat.eqb k; o_append := fun _ => AOk; o_flush := fun _ => false;
+     o_cleanup := false; o_perr := false; o_closed_sel := false |}.
+
+Definition snap_matches (sn : snapshot) (a : kattempt) : bool :=
+  match a with
+  | KA _ k has lu lq sk sd gpi seen gb tp _ _ _ =>
+      nat_eqN (sn_iter sn) k && Bool.eqb (sn_has sn) has && beq (sn_ukey sn) (unhex lu) && (sn_seq sn =? lq)
+      && (sn_kerr sn =? sk) && (sn_drop sn =? sd)
+      && nat_eqN (cs_gpi (sn_cs sn)) gpi && Bool.eqb (cs_seen (sn_cs sn)) seen && (cs_bytes (sn_cs sn) =? gb)
+      && ptrs_eqb (cs_ptrs (sn_cs sn)) tp
+  end.
+
 Definition run_c06 (cs : c06case) : bool :=
   match cs with
+  | KBuild cid minSeq strict tableSize maxgp ins gp deeper sizes outs =>
+      let c := cmp_of_id cid in
+      let es := merge_inputs c (map to_mtable_full ins) in
+      let dl := to_mlevels deeper in
+      let ts := tsize_of (conv_sizes sizes) in
+      let obs := map (map to_entry) outs in
+      match run_attempt c kp (sz_of gp) (map to_mtable gp) maxgp dl minSeq strict tableSize ts o_ok (map IGood es) (bst0 dl) with
+      | (sf, ROk) => tables_eqb (out_items sf) obs && cuts_ok c obs
+      | _ => false
+      end
+  | KRetry cid minSeq strict tableSize maxgp ins gp deeper sizes attempts outs =>
+      let c := cmp_of_id cid in
+      let es := merge_inputs c (map to_mtable_full ins) in
+      let dl := to_mlevels deeper in
+      let ts := tsize_of (conv_sizes sizes) in
+      let obs := map (map to_entry) outs in
+      let items := map IGood es in
+      let att := fun o => run_attempt c kp (sz_of gp) (map to_mtable gp) maxgp dl minSeq strict tableSize ts o items (bst0 dl) in
+      forallb (fun a =>
+        match a with
+        | KA true k _ _ _ _ _ _ _ _ _ nt _ _ =>
+            (* a failed attempt: the persistent state is the failure-free one at position snapIter *)
+            let sk := if k =? 0 then bst0 dl else fst (att (next_fails_at (S (N.to_nat k)))) in
+            snap_matches (snap sk) a && nat_eqN (List.length (recs sk)) nt
+        | KA false _ _ _ _ _ _ _ _ _ _ nt ke dr =>
+            match att o_ok with
+            | (sf, ROk) => tables_eqb (out_items sf) obs && nat_eqN (List.length (recs sf)) nt && (kerr sf =? ke) && (drop sf =? dr)
+            | _ => false
+            end
+        end) attempts
   | KL x => run_case x && match x with
                           | KWf cid lvls => wf_extrab (to_levels lvls)      (* with wf_versionb: Pick.wf_lsmb *)
                           | _ => true
